@@ -7,7 +7,10 @@ PROP_V = "Props/Properties_C13.v"
 GEN_MODULES = ["Consts", "Sites"]
 FLOW_FILES = ['mu.c']
 REPLAY_HINT = "VRT_SEED=<seed> [env] _work/h/<scenario>: the arena unmaps freed blocks (UAF) and the runtime knows every thread's parked stack pointer (DEADSTACK)"
-PARTIAL = ["mutex half: proved as the two lemmas the refcount argument needs (C13_last_cas, C13_pinned, C13_fast_release_is_last) over the "
+PARTIAL = ["the property's first sentence read literally ('touches nothing after the release') is false on the contended path: between the early release (spinlock CAS that drops the lock bits) and the last CAS another thread may lock and unlock; C13_pinned is the substitute: in that window the mutex is pinned by a non-empty queue / designated waker that the freeing thread would have to pass, and after the LAST CAS only waiter records are touched (C13_last_cas)",
+           "C13_last_cas / C13_fast_release_is_last are facts about the model's step function for ANY world (syntactic in the hand-written skeleton; tied to the code by the lock-step replay and the flow pin of mu.c: after nsync_mu_unlock_slow_'s last word CAS the only nodes are the `waiting` store, semaphore V and EXIT); reads are not expressible in the model's footprint, they are the arena oracle's business",
+           "waker half: C13_waker_footprint (Properties_C11) covers nsync_wait_n records on cvs without transferred waiters; cancellable waits' on-stack records (sem_wait.c) have no theorem: arena + dead-stack oracles",
+           "mutex half: proved as the two lemmas the refcount argument needs (C13_last_cas, C13_pinned, C13_fast_release_is_last) over the "
            "condition-free MuModel; the refcount theorem with an explicit free operation and the reader-mode variant (design finding F5: "
            "cv broadcast under a read lock with only nsync_wait_n records leaves MU_WAITING set over an empty queue) are decided by the arena "
            "oracle, not by a theorem",
